@@ -27,13 +27,17 @@ pub enum Job {
     Stab(usize, u64),
 }
 
-const PROFILES: [(&str, [f32; 5]); 6] = [
+const PROFILES: [(&str, [f32; 5]); 9] = [
     ("uniform", [0.2, 0.2, 0.2, 0.2, 0.2]),
     ("cnot-only", [1.0, 0.0, 0.0, 0.0, 0.0]),
     ("clifford", [0.3, 0.0, 0.35, 0.35, 0.0]),
     ("no-two-qubit", [0.0, 0.0, 0.3, 0.3, 0.4]),
     ("sparse", [0.1, 0.1, 0.1, 0.1, 0.1]),
     ("t-and-cz", [0.0, 0.5, 0.0, 0.0, 0.5]),
+    // unequal single-qubit probabilities (every preset of the builder sets p_h == p_s)
+    ("h-no-s", [0.2, 0.2, 0.6, 0.0, 0.0]),
+    ("s-no-h", [0.25, 0.25, 0.0, 0.5, 0.0]),
+    ("all-different", [0.1, 0.15, 0.2, 0.25, 0.3]),
 ];
 
 fn build_random(q: usize, depth: usize, prof: usize, seed: u64) -> Circuit {
